@@ -519,8 +519,8 @@ pub fn run(ctx: &mut Ctx) {
     };
     ctx.run_enumerated::<Slices>(slice_box(stride, offset), true);
     ctx.run_enumerated::<Subscripts>(index_box(), true);
-    ctx.run_part::<Slices>(t.pick(20_000, 400_000));
-    ctx.run_part::<Subscripts>(t.pick(5_000, 50_000));
+    ctx.run_part::<Slices>(t.pick(20_000, 20_000_000));
+    ctx.run_part::<Subscripts>(t.pick(5_000, 5_000_000));
     if t == Tier::Thorough {
         python_crosscheck(ctx);
     }
